@@ -162,8 +162,8 @@ theorem adaptZip_isOk_iff (O : Oracle) (ser : Bool) : ∀ (ts : List Ty) (xs : L
         simp only [isOk_ok, true_iff] at ih ⊢
         exact ⟨ih.1, trivial, ih.2⟩
 
-theorem confLZip_iff (ll lk : Bool) : ∀ (ts : List Ty) (xs : List Val),
-    confLZip ll lk ts xs = true ↔ xs.length = ts.length ∧ ∀ tx ∈ ts.zip xs, confL ll lk tx.1 tx.2 = true
+theorem confLZip_iff {P : Nat → Val → Bool} (ll lk : Bool) : ∀ (ts : List Ty) (xs : List Val),
+    confLZip P ll lk ts xs = true ↔ xs.length = ts.length ∧ ∀ tx ∈ ts.zip xs, confL P ll lk tx.1 tx.2 = true
   | [], [] => by simp [confLZip]
   | [], _ :: _ => by simp [confLZip]
   | _ :: _, [] => by simp [confLZip]
@@ -269,7 +269,7 @@ theorem same_pyEq (l : Lit) (v : Val) (h : l.same v = true) : pyEq l.toVal v = t
   cases l <;> cases v <;> simp [Lit.same] at h <;> subst h <;> simp [Lit.toVal, pyEq, numOf]
 
 theorem shape_gen (O : Oracle) : ∀ (t : Ty) (orig : Option String) (v : Val),
-    conf t v = true → setSafe t = true → isOk (adapt O false orig t v) = true
+    conf O.rnumOk t v = true → setSafe t = true → isOk (adapt O false orig t v) = true
   | .any, _, v, _, _ => by simp [adapt]
   | .str, _, v, hc, _ => by cases v <;> simp [conf, confL] at hc; simp [adapt, adaptLeaf]
   | .int, _, v, hc, _ => by cases v <;> simp [conf, confL] at hc; simp [adapt, adaptLeaf, loadIfStr]
@@ -285,7 +285,11 @@ theorem shape_gen (O : Oracle) : ∀ (t : Ty) (orig : Option String) (v : Val),
     cases v <;> simp [conf, confL] at hc
     obtain ⟨rfl, hn⟩ := hc
     simp [adapt, adaptEnum, hn]
-  | .rnum _ _, _, _, _, hs => by simp [setSafe] at hs
+  | .rnum b k, _, v, hc, _ => by
+    simp only [conf, confL, Bool.and_eq_true] at hc
+    have hb : b.has v = true := by
+      cases b <;> cases v <;> simp at hc <;> rfl
+    simp [adapt, adaptRnum, rnumConv_fix O b v hb, hc.2]
   | .reg k, _, v, hc, _ => by
     cases v <;> simp [conf, confL] at hc
     subst hc
@@ -330,7 +334,7 @@ theorem shape_gen (O : Oracle) : ∀ (t : Ty) (orig : Option String) (v : Val),
   | .dict k t, orig, v, hc, hs => by
     cases v <;> simp [conf, confL] at hc
     rename_i kvs
-    have hkv : ∀ kv ∈ kvs, DKey.conf k kv.1 = true ∧ confL false false t kv.2 = true := fun kv hm => hc kv.1 kv.2 hm
+    have hkv : ∀ kv ∈ kvs, DKey.conf k kv.1 = true ∧ confL O.rnumOk false false t kv.2 = true := fun kv hm => hc kv.1 kv.2 hm
     have hs' : setSafe t = true := by simpa [setSafe] using hs
     cases k with
     | str =>
